@@ -106,6 +106,8 @@ class World:
             # wildcards that are not "*.domain", and exact entries that are a suffix of other hosts
             [("udp", "10.20.*", "127.0.3.1:%d" % self.port_hop), ("udp", "sip*.pbx.test", "127.0.3.2:%d" % self.port_hop), ("udp", "dest.test", "127.0.3.3:%d" % self.port_hop)],
             [("udp", "dest.test", "127.0.3.1:%d" % self.port_hop), ("udp", "*.wild.*", "127.0.3.2:%d" % self.port_hop)],
+            # a wildcard listed BEFORE an exact entry it covers: the exact entry still wins
+            [("udp", "*.wild.test", "127.0.3.2:%d" % self.port_hop), ("udp", "a.wild.test", "127.0.3.1:%d" % self.port_hop), ("udp", "*", "127.0.3.3:%d" % self.port_hop)],
         ])
         ips = ["127.0.2.1", "127.0.2.2", "127.0.2.3", "127.0.3.1", "127.0.3.2", "127.0.3.3"]
         self.obs = []
@@ -202,7 +204,9 @@ def spell(g, name, mode):
     if mode == 0:
         return name
     if mode == 1:
-        return compact.get(name.lower(), name)
+        c = compact.get(name.lower(), name)
+        # compact forms are letters: both cases are the same name
+        return c.upper() if (len(c) == 1 and g.sp_chance(0.3)) else c
     if mode == 2:
         return name.upper()
     if mode == 3:
@@ -717,7 +721,7 @@ def gen_dialog_case(g, tier, c17=None):
                 own = Via("UDP", lst.addr, lst.port, [("branch", "z9hG4bKown" + g.word(ALNUM, 4, 6))])
                 bvia = Via("UDP", bip, int(bport), [("branch", "z9hG4bK" + g.word(ALNUM.upper(), 6, 9))])
                 d.cseq += 1
-                r = dialog_resp(c, g, g.pick([200, 202]), "SUBSCRIBE", d, [own, bvia], extra=[("Expires", g.pick(["0600", "+90", "3600"]))] if g.chance(0.4) else None)
+                r = dialog_resp(c, g, g.pick([200, 202]), "SUBSCRIBE", d, [own, bvia], extra=[("Expires", g.pick(["0600", "+90", "3600", "0", "0"]))] if g.chance(0.5) else None)
                 raw(r, ua_ip, w.port_ua, ["spec=C02 " + expect_dest("U", d.backend), "spec=C01 relay"])
                 d.pinned = True
                 g.count("dlg_subscribe_pinned")
@@ -801,6 +805,10 @@ def gen_tcp_case(g, tier):
             own = Via("TCP", lst.addr, lst.port, [("branch", "z9hG4bKown" + g.word(ALNUM, 4, 6))])
             r = dialog_resp(c, g, code, t["method"], t["d"], [own, t["via"]])
             bip, bport = g.pick(w.backends[0]).split(":")
+            if g.chance(0.25):
+                # the answer comes from an address that is not a configured backend (a next hop, a backend's other socket)
+                bip, bport = g.pick([("127.0.1.9", "5080"), (bip, "5999"), ("127.0.3.1", str(w.port_hop))])
+                g.count("tcp_resp_from_non_backend")
             ops.append("pipe raw p=0 from=%s peer=%s port=%s tcp=- rx=0 msg=%s # spec=C12 dest C %d # spec=C01 relay" % (
                 lst.tok(), hx(bip), bport, hx(r), t["conn"]["id"]))
             g.count("tcp_resp_final" if final else "tcp_resp_provisional")
